@@ -42,6 +42,8 @@ class C09(F.Spec):
             yield self.probe(rng, i)
         for i in range(60 if tier == "quick" else 600):
             yield self.scenario(rng, i)
+        for i in range(12 if tier == "quick" else 60):
+            yield self.legs(rng, i)
         # blinds whose tilting runs in short equal callbacks (1, 2, 3, 7 ms) with tilting times whose unit (time / 10^4) does not
         # divide the interval: a remainder that is dropped per callback adds up over the tilting
         for i in range(12 if tier == "quick" else 100):
@@ -63,6 +65,27 @@ class C09(F.Spec):
             ops += ["msg 110 " + set_value(8, 0, dur, [0]).hex(), "rstick 0 10000", "rstick 0 10000"]
             yield F.Case("tiltsmall%d" % i, ops, {"kind": "run", "tt": tt, "up": up, "opening": full, "closing": full, "tms": tms, "p0": p0,
                                                   "t0": t0, "noshrink": True, "tags": ["kind:run", "tilt:%d" % tt, "small-intervals"]})
+
+    def legs(self, rng, i):
+        """a plain shutter driven through several runs with direct reversals (no stop between them), the first of them into an
+        end stop and on for a while beyond it: what one direction left unconsumed must not be added to a later run"""
+        full = rng.choice([10000, 20000, 15000])
+        dur = ((full // 100) << 16) | (full // 100)
+        first_up = i % 2
+        p0 = 1100 if first_up else 9100            # 10 % away from the end stop the first run goes to
+        over = rng.choice([300, 500, 800, 900]) * full // 10000
+        tick = 100000 if i % 3 else 50000
+        ops = ["boot 12345", "board rs1 0", "motor 1 0 1 1", "init", "calllog 1", "rstimes 0 %d %d 0 0" % (full, full),
+               "rspos 0 %d 0" % p0, "rsmanual 0", "adv 1500", "rstick 0 10000", "rstick 0 0"]
+        legs = [(first_up, full // 10 + over), (1 - first_up, full // 2), (first_up, rng.choice([full // 10, full // 5]))]
+        if i % 4 == 3:
+            legs.append((1 - first_up, full // 10))
+        for up, ms in legs:
+            ops.append("msg 110 " + set_value(7, 0, dur, [2 if up else 1]).hex())
+            ops += ["rstick 0 %d" % tick] * (ms * 1000 // tick)
+        ops += ["msg 110 " + set_value(8, 0, dur, [0]).hex(), "rstick 0 10000", "rstick 0 10000"]
+        return F.Case("legs%d" % i, ops, {"kind": "legs", "tt": 0, "up": first_up, "opening": full, "closing": full, "tms": 0, "p0": p0,
+                                          "t0": 0, "noshrink": True, "tags": ["kind:legs", "reversals:%d" % (len(legs) - 1)]})
 
     def probe(self, rng, i):
         tt = rng.choice([0, 0, 1, 2, 3])
@@ -148,6 +171,8 @@ class C09(F.Spec):
                 v = bytes.fromhex(t[2])[9]
                 if v in (1, 2):
                     me["up"] = 1 if v == 2 else 0
+        if sum(1 for op in case.ops if op.startswith("msg 110 ") and bytes.fromhex(op.split()[2])[9] in (1, 2)) > 1:
+            me["kind"] = "legs"
         case.meta.update(me)
 
     def derive_model(self, case, raw):
@@ -231,6 +256,29 @@ class C09(F.Spec):
                             fs.append(F.Finding("moved-against-direction", "position went from %d to %d while moving %s" % (
                                 last, pos, "up" if me["up"] else "down")))
                         last = pos
+            return fs
+        if me.get("kind") == "legs":
+            # every interval belongs to the direction whose relay the callback at its end sees on
+            pos, last_t, n_rev, last_dir = float(me["p0"]), None, 0, None
+            final = None
+            for g in raw:
+                for x in g:
+                    if x.startswith("RSTICK "):
+                        f = dict(p.split("=") for p in x.split()[2:])
+                        t = int(f["t0"])
+                        d = -1 if int(f["up"]) == 1 else (1 if int(f["down"]) == 1 else 0)
+                        if d and last_t is not None:
+                            pos = max(100.0, min(10100.0, pos + d * 10000.0 * (t - last_t) / 1000.0 / me["opening"]))
+                        if d and last_dir is not None and d != last_dir:
+                            n_rev += 1
+                        last_dir = d or last_dir
+                        last_t = t
+                        final = int(f["pos"])
+            tol = 100 + (n_rev + 1) * 10000.0 * 30 / me["opening"]
+            if final is not None and abs(final - pos) > tol:
+                fs.append(F.Finding("position-off", "plain shutter, %d direct reversals, full travel %d ms, first run into an end stop and beyond%s: "
+                                    "stored position %.2f %%, expected %.2f %% (tolerance %.2f)" % (
+                                        n_rev, me["opening"], "", (final - 100) / 100.0, (pos - 100) / 100.0, tol / 100.0)))
             return fs
         if me.get("kind") != "run":
             return fs
